@@ -87,6 +87,10 @@ CLAIMED = {
         technique="MIR cross-contract type agreement of every query edge (resolved generic arguments), chain-wide absence of gating facts, contradiction rule between the selection comparison and the partial reply's arithmetic, event-order rule for balance-sized top-ups, return-vs-queued agreement",
         note="Liveness is not statically decidable; decided are necessary conditions: R07.1 all 15 in-repo query edges deserialise the type the target serialises (known finding F1: vAMM<-pricefeed GetPrice); R07.2 Liquidate chain not gated by pause, restriction mode or sender identity; R07.3 magnitude-based full/partial selection vs fallible unsigned margin arithmetic in the partial reply (known finding F2); R07.4 no balance-sized insurance top-up after an unreported outgoing vault transfer (known findings F3 x2); R07.5 amount reported as incoming equals the queued Withdraw; R07.6 strict already-outside band test. Not decided: that the swap can be filled, arithmetic overflow, insurance solvency.",
         design="4/C07"),
+    "C18": dict(
+        technique="MIR writer census and pairing for reserve snapshots, stored-value flow for the price feed, and linear (telescoping) check of the TWAP weights on the bounded-unrolled prefix of the two averaging loops",
+        note="Decided: R18.1 snapshots are written only by instantiate and the snapshot writer, which follows every reserve write with the stored reserves; R18.2 overwrite iff same block, else append stamped (time, height); R18.3 price submissions stored unmodified, GetPrice returns the last stored element; R18.4 on every TWAP path that ends within one unrolled iteration the result is one observed price or sum(price*w)/D with weights telescoping to D, and the loop has no iterator-driven exit. Not decided: the convexity claim for histories longer than the unrolled prefix (loop-carried weights), which is arithmetic.",
+        design="4/C18"),
 }
 
 NOT_BUILT = "rules designed in DESIGN.md section 4 but not built yet"
